@@ -253,6 +253,18 @@ def registration():
                     pass
             if len(regs) > 1:
                 raise Unsupported(f"{node.name}: several margin registrations")
+            if regs:
+                # the registration must be unconditional: a statement of the function body itself, which no `return`
+                # (nor a try/except swallowing it) can precede
+                top = [i for i, st in enumerate(node.body)
+                       if isinstance(st, ast.Expr) and isinstance(st.value, ast.Call)
+                       and ast.unparse(st.value.func) in ("self.margins.add_cumulative", "self.margins.add_non_cumulative")]
+                if len(top) != 1:
+                    raise Unsupported(f"{node.name}: the margin registration is not an unconditional statement of the callback")
+                for st in node.body[: top[0]]:
+                    for sub in ast.walk(st):
+                        if isinstance(sub, (ast.Return, ast.Try)):
+                            raise Unsupported(f"{node.name}: a `{type(sub).__name__.lower()}` precedes the margin registration")
             rows.append((node.name, regs[0] if regs else "none"))
     # filter_check_conf must pass the image shape and the matching-cost step to the filter class
     f = find_method(cls, "filter_check_conf")
